@@ -37,7 +37,7 @@ func registerProps() {
 	for _, p := range []*PropDef{
 		{ID: "C17", Title: "Source loading maps every file to its package and a real common root", DesignRef: "§4 C17"},
 		{ID: "C19", Title: "Declaration assembly is a set-like, order-independent merge", DesignRef: "§4 C19", Lemmas: []string{"sorted_perm_unique.lean"}, Trusted: []string{"lemma sorted_perm_unique (Lean 4 core, /verif/lemmas/sorted_perm_unique.lean, re-checked in the thorough tier): a key-sorted permutation whose equal-key elements are equal is unique; its hand correspondence with the SMT-level postconditions (sorted by (priority, ID); same elements)"}},
-		{ID: "C10", Title: "Enum detection is exact", DesignRef: "§4 C10"},
+		{ID: "C10", Title: "Enum detection is exact", DesignRef: "§4 C10", Lemmas: []string{"interval_card.lean"}, Trusted: []string{"lemmas pigeonhole / interval_card (Lean 4 + Mathlib, /verif/lemmas/interval_card.lean, re-checked in the thorough tier): a subset of {0..m} with m+1 elements is {0..m}, and {0..m} has m+1 elements; their hand correspondence with the two cardinality axioms of the background theory (len(map) as the cardinality of the key set)"}},
 		{ID: "C11", Title: "Union detection and membership are exact", DesignRef: "§4 C11", Trusted: []string{}},
 		{ID: "C07", Title: "Generation is deterministic", DesignRef: "§4 C07", Ordind: true},
 		{ID: "C18", Title: "Unsupported input is refused with a diagnostic, never a crash", DesignRef: "§4 C18"},
